@@ -88,6 +88,7 @@ type reqState struct {
 	ctx     *rux.Context
 	started map[string]int
 	cancel  context.CancelFunc
+	under   http.ResponseWriter // what ServeHTTP was given (the SimWriter, or a plain view of it)
 }
 
 type routeRec struct {
@@ -466,6 +467,13 @@ func (b *bufWriter) WriteHeader(code int) {
 }
 func (b *bufWriter) Write(p []byte) (int, error) { b.body = append(b.body, p...); return len(p), nil }
 
+// plainWriter exposes only the three methods of http.ResponseWriter.
+type plainWriter struct{ w *SimWriter }
+
+func (p plainWriter) Header() http.Header         { return p.w.Header() }
+func (p plainWriter) Write(b []byte) (int, error) { return p.w.Write(b) }
+func (p plainWriter) WriteHeader(code int)        { p.w.WriteHeader(code) }
+
 type passWriter struct{ http.ResponseWriter }
 
 func (p passWriter) Flush() {
@@ -522,6 +530,10 @@ func (w *World) act(rs *reqState, id string, c *rux.Context, a Action) {
 	case "write":
 		add("do", "write:"+a.S)
 		n, err := c.Resp.Write([]byte(a.S))
+		add("w", fmt.Sprintf("%d,%v,len=%d", n, err, c.Length()))
+	case "iowstr": // io.WriteString: uses a WriteString method of the writer when there is one
+		add("do", "write:"+a.S)
+		n, err := io.WriteString(c.Resp, a.S)
 		add("w", fmt.Sprintf("%d,%v,len=%d", n, err, c.Length()))
 	case "wstr":
 		add("do", "wstr:"+a.S)
@@ -807,7 +819,7 @@ func (w *World) observe(rs *reqState, c *rux.Context) string {
 	if !reqOK {
 		b.WriteString(" req=FOREIGN")
 	}
-	if raw := c.RawWriter(); raw != http.ResponseWriter(rs.sw) {
+	if raw := c.RawWriter(); raw != rs.under {
 		b.WriteString(" raw=FOREIGN")
 	}
 	fmt.Fprintf(&b, " resp=%T", c.Resp)
@@ -908,10 +920,15 @@ func (w *World) Serve(task, idx int, rq *Req) *ReqRec {
 				rec.Escaped = panicString(r)
 			}
 		}()
+		var under http.ResponseWriter = rs.sw
+		if rq.Plain {
+			under = plainWriter{rs.sw}
+		}
+		rs.under = under
 		if w.wrapped != nil {
-			w.wrapped.ServeHTTP(rs.sw, rs.orig)
+			w.wrapped.ServeHTTP(under, rs.orig)
 		} else {
-			w.R.ServeHTTP(rs.sw, rs.orig)
+			w.R.ServeHTTP(under, rs.orig)
 		}
 		rec.Returned = true
 	}()
@@ -1004,7 +1021,7 @@ func (w *World) EffPath(path string) string {
 // BuiltinFallback reports whether a request for (method, path) is answered by
 // rux's built-in 404/405 handler (whose writes the harness trace cannot show).
 func (w *World) BuiltinFallback(method, path string) bool {
-	route, _, allowed := w.R.Match(method, w.EffPath(path))
+	route, _, allowed := w.R.QuickMatch(method, w.EffPath(path)) // as ServeHTTP does: the method token is taken as it is
 	if route != nil {
 		return false
 	}
